@@ -32,7 +32,7 @@ func (c *Call) PermFail() bool {
 
 // TransFail reports a finished, retryable failure (transient error or timeout).
 func (c *Call) TransFail() bool {
-	return c.Returned && (c.CtxDone || c.Out == Trans || c.Out == Overrun || c.Out == RespTrans)
+	return c.Returned && (c.CtxDone || c.Out == Trans || c.Out == TransZero || c.Out == Overrun || c.Out == RespTrans)
 }
 
 // Hist is an index over the event log of one generation.
